@@ -19,12 +19,14 @@ func init() {
 			"every Depends entry becomes an edge in both adjacency maps or the lookup error is returned; isReady iterates g.to[node.id] (C01.edges)",
 			"the loop goroutine itself flips the node to running between the gate and the go statement (C01.flip-first)",
 			"on the retry path the step returns to not-started only after sleeping RetryPolicy.Interval (C01.retry-reset-late)",
+			"after that hand-back the old worker stores no further status of the node on its way out, so a relaunched attempt cannot be labelled finished by the previous attempt's goroutine (C01.no-status-after-handback)",
 			"no call path reaches (*Node).Execute except through the gated launch and the post-Wait handler runner (C01.single-launch)",
+			"Node.Execute invokes the executor's Run itself and returns after it, so the worker's `finished` is written after the command ended (C01.exec-awaited)",
 			"finished is written to a graph node only by the worker after its exec loop and under status==running; failed only under an error from setup/exec/teardown (C01.finish-writes)",
 		},
 		NotDec: []string{
 			"races on the status word between the loop, workers and Signal",
-			"that the executor really waits for the child process (os/exec semantics)",
+			"that the executor's Run really waits for the child process (os/exec semantics)",
 			"timing of the 100 ms poll; correctness over concrete DAG shapes / outcome scripts is implied only through the per-path facts above",
 		},
 		Assume: []string{"go/types, go/ssa and the edge-dominance computation are correct", "Node.data is reached only through *Node (field is unexported; all stores enumerated)"},
@@ -43,8 +45,10 @@ func runC01(e *Env) {
 	c01Edges(e, s)
 	c01FlipFirst(e, s)
 	c01RetryResetLate(e, s)
+	c03Handback(e, s, "C01.no-status-after-handback", false)
 	c01SingleLaunch(e, s)
 	c01FinishWrites(e, s)
+	cSyncRun(e, s, "C01.exec-awaited")
 }
 
 // ---------------------------------------------------------------------------
